@@ -1,7 +1,7 @@
 (* Laws of the filename / tag model (C14), part 1: Python string helpers, Tag, parse_tag. *)
 From Coq Require Import List Arith NArith Bool Lia.
 Import ListNotations.
-Require Import S1 VParse VComplete VTop VDec Py VMeaning SpecModel Names NamesSpec NamesAscii NamesLaws WheelModel.
+Require Import S1 VParse VComplete VTop VDec Py VMeaning SpecModel Names NamesSpec NamesAscii NamesLaws NamesX NamesLower NamesLowerLaws NamesLowerFull WheelModel.
 Open Scope N_scope.
 Arguments N.eqb : simpl never.
 Arguments N.leb : simpl never.
@@ -131,36 +131,13 @@ Proof.
 Qed.
 
 (* ---------------- str.lower() ---------------- *)
-Lemma lower_fixed c : Forall (fun x => py_lower_c x = [x]) (py_lower_c c).
-Proof.
-  destruct (is_sep c) eqn:E.
-  - rewrite (lower_sep c E). constructor; [now apply lower_sep|constructor].
-  - eapply Forall_impl; [|apply (lower_low c E)]. now intros x [_ H].
-Qed.
-Lemma py_lower_fixed s : Forall (fun x => py_lower_c x = [x]) s -> py_lower s = s.
-Proof. induction 1 as [|x s Hx _ IH]; [reflexivity|]. cbn [py_lower flat_map]. fold (py_lower s). now rewrite Hx, IH. Qed.
-Lemma py_lower_idem s : py_lower (py_lower s) = py_lower s.
-Proof.
-  apply py_lower_fixed. induction s as [|c s IH]; [constructor|]. cbn [py_lower flat_map]. apply Forall_app. split; [apply lower_fixed|exact IH].
-Qed.
 (* lower-casing creates no '-' and no '.' *)
-Lemma lower_nochar x c : (x = 45 \/ x = 46) -> (c =? x) = false -> nochar x (py_lower_c c) = true.
-Proof.
-  intros Hx Hc. unfold py_lower_c. destruct ((65 <=? c) && (c <=? 90)) eqn:U; [|destruct (c =? 304) eqn:E1; [|destruct (c =? 8490) eqn:E2]].
-  - rewrite nochar_cons. cbn [nochar forallb]. destruct Hx; subst x; bcase.
-  - destruct Hx; subst x; reflexivity.
-  - destruct Hx; subst x; reflexivity.
-  - rewrite nochar_cons, Hc. reflexivity.
-Qed.
-Lemma py_lower_nochar x s : (x = 45 \/ x = 46) -> nochar x s = true -> nochar x (py_lower s) = true.
-Proof.
-  intros Hx. induction s as [|c s IH]; [reflexivity|]. rewrite nochar_cons. intros H. apply andb_prop in H as [H1 H2]. apply negb_true_iff in H1.
-  cbn [py_lower flat_map]. fold (py_lower s). rewrite nochar_app, lower_nochar, IH; auto.
-Qed.
+Lemma lower_full_nochar x s : (x = 45 \/ x = 46) -> nochar x s = true -> nochar x (lower_full s) = true.
+Proof. intros Hx H. unfold nochar, lower_full. apply lower_go_nosep; auto. destruct Hx; subst; reflexivity. Qed.
 
 (* ---------------- Tag ---------------- *)
-Lemma mk_tag_lowered i a p : mk_tag (py_lower i) (py_lower a) (py_lower p) = mk_tag i a p.
-Proof. unfold mk_tag. now rewrite !py_lower_idem. Qed.
+Lemma mk_tag_lowered i a p : mk_tag (lower_full i) (lower_full a) (lower_full p) = mk_tag i a p.
+Proof. unfold mk_tag. now rewrite !lower_full_idem. Qed.
 Lemma mk_tag_fields i a p : let t := mk_tag i a p in mk_tag (t_interp t) (t_abi t) (t_plat t) = t.
 Proof. apply mk_tag_lowered. Qed.
 Lemma tag_eq_iff h x y : tag_eq h x y = true <-> x = y.
@@ -171,18 +148,11 @@ Proof.
   - intros ->. now rewrite N.eqb_refl, !str_eqb_refl.
 Qed.
 Lemma mk_tag_eq_iff i a p i' a' p' :
-  mk_tag i a p = mk_tag i' a' p' <-> py_lower i = py_lower i' /\ py_lower a = py_lower a' /\ py_lower p = py_lower p'.
+  mk_tag i a p = mk_tag i' a' p' <-> lower_full i = lower_full i' /\ lower_full a = lower_full a' /\ lower_full p = lower_full p'.
 Proof. unfold mk_tag. split; [intros [= -> -> ->]; auto|intros (-> & -> & ->); reflexivity]. Qed.
-(* ASCII upper-casing of a field does not change the tag *)
-Definition upper_a (c : char) : char := if is_lower c then c - 32 else c.
-Lemma lower_upper_a c : py_lower_c (upper_a c) = py_lower_c c.
-Proof.
-  unfold upper_a, is_lower. destruct ((97 <=? c) && (c <=? 122)) eqn:L; [|reflexivity]. unfold py_lower_c.
-  assert (E1 : (65 <=? c - 32) && (c - 32 <=? 90) = true) by bcase. assert (E2 : (65 <=? c) && (c <=? 90) = false) by bcase.
-  assert (E3 : (c =? 304) = false) by bcase. assert (E4 : (c =? 8490) = false) by bcase. rewrite E1, E2, E3, E4. f_equal. bcase.
-Qed.
-Lemma py_lower_upper s : py_lower (map upper_a s) = py_lower s.
-Proof. induction s as [|c s IH]; [reflexivity|]. cbn [map py_lower flat_map]. fold (py_lower (map upper_a s)) (py_lower s). now rewrite lower_upper_a, IH. Qed.
+(* ASCII upper-casing of a field does not change the tag (NamesLowerFull.upper_a, lower_full_upper) *)
+Lemma mk_tag_upper i a p : mk_tag (map upper_a i) (map upper_a a) (map upper_a p) = mk_tag i a p.
+Proof. unfold mk_tag. now rewrite !lower_full_upper. Qed.
 
 (* ---------------- parse_tag ---------------- *)
 Lemma parse_tag_encode py abi plat : nochar 45 py = true -> nochar 45 abi = true -> nochar 45 plat = true ->
@@ -208,8 +178,8 @@ Lemma parse_tag_str i a p :
   parse_tag (tag_str (mk_tag i a p)) = FOk [mk_tag i a p].
 Proof.
   intros I1 I2 A1 A2 P1 P2. unfold tag_str. cbn [mk_tag t_interp t_abi t_plat].
-  rewrite parse_tag_encode by (apply py_lower_nochar; auto).
-  rewrite !split_all_none by (apply py_lower_nochar; auto). cbn [tag_product flat_map map app]. now rewrite mk_tag_lowered.
+  rewrite parse_tag_encode by (apply lower_full_nochar; auto).
+  rewrite !split_all_none by (apply lower_full_nochar; auto). cbn [tag_product flat_map map app]. now rewrite mk_tag_lowered.
 Qed.
 (* every member of a parsed tag set is such a tag *)
 Lemma parse_tag_members s ts t : parse_tag s = FOk ts -> In t ts -> parse_tag (tag_str t) = FOk [t].
